@@ -16,13 +16,16 @@ LEVEL = 'fault_enumeration'
 
 SWEEP_VALUES = (0x00, 0x01, 0x7f, 0x80, 0xff)
 SWEEP_MAX_LEN = 256
+# text seeds additionally get every grammar-significant character at every offset
+TEXT_SWEEP_VALUES = tuple(b':=;, "\\\r\n/%{}*-0')
 # second enumerated fault set: a maximal / minimal integer written over every offset (hostile length and count fields)
 FIELD_VALUES = {2: (0xffff, 0x0000), 3: (0xffffff, ), 4: (0xffffffff, 0x00000000, 0x7fffffff)}
 FIELD_MAX_LEN = 1024
 
 RULE = (
-    'phase A enumerates a finite fault set completely: for each accepted corpus seed <= %d bytes, every truncation '
-    'length 0..len-1 and every overwrite of every offset with each of %s (one evaluation = one seed swept). Phase B: '
+    'phase A enumerates finite fault sets completely: for each accepted corpus seed <= %d bytes, every truncation '
+    'length 0..len-1 and every overwrite of every offset with each of %s (text seeds also with each of : = ; , space " \\ CR LF / %% { } * - 0); '
+    'for each binary seed <= 1024 bytes every offset overwritten with extreme 2/3/4-byte integers (one evaluation = one seed swept). Phase B: '
     'one evaluation = one faulted datagram of a corpus class (1-3 faults from flip/set/length-field/truncate/drop/dup/'
     'swap/insert/splice, biased to length fields and text separators) given to the entry points, or one faulted '
     'stream of composed records read by a reader loop that forwards accepted TLS/SSL records to the sub-protocol '
@@ -148,7 +151,8 @@ def _exec_sweep(doc, res):
                 for off in range(0, len(raw) - size + 1)]
     else:
         plan = [('trunc', cut, 0) for cut in range(len(raw))]
-        plan += [('set', off, val) for off in range(len(raw)) for val in SWEEP_VALUES if raw[off] != val]
+        values = SWEEP_VALUES + (TEXT_SWEEP_VALUES if wirefault.is_text(raw) else ())
+        plan += [('set', off, val) for off in range(len(raw)) for val in values if raw[off] != val]
     for mode, off, val in plan:
         if mode == 'trunc':
             data = raw[:off]
@@ -337,8 +341,9 @@ def check(tier, seed):
         extra={
             'exhaustive': False,
             'enumerated_fault_set': {
-                'description': 'every truncation and every single-byte overwrite with %s at every offset of every '
-                               'accepted corpus seed <= %d bytes' % (list(SWEEP_VALUES), SWEEP_MAX_LEN),
+                'description': 'every truncation and every single-byte overwrite with %s (text seeds also with %r) at every '
+                               'offset of every accepted corpus seed <= %d bytes' % (
+                                   list(SWEEP_VALUES), bytes(TEXT_SWEEP_VALUES).decode('ascii'), SWEEP_MAX_LEN),
                 'seeds_swept': sweep.runs, 'seeds_total': n_sweep, 'faulted_inputs': sweep.stats.get('sweep.cases', 0),
                 'complete': sweep.runs == n_sweep and not sweep.truncated,
             },
